@@ -37,7 +37,7 @@ func WalkState(store db.DB, root []byte, withStorage bool) (map[string]*AcctDump
 			return nil, err
 		}
 		raw := store.Get(vh)
-		if len(raw) == 0 {
+		if len(raw) == 0 && !store.Exist(vh) {
 			return nil, fmt.Errorf("state data %x of account %x missing in the store", vh, k)
 		}
 		st := &types.State{}
